@@ -79,9 +79,9 @@ def spawn_rules(ctx, name, cancellable):
             ls = ctx.leaves(c.switch_discr_expr(polls[0])) | inner
             okw = has_leaf(ls, "call:*CancellationToken::cancelled") and (has_leaf(ls, "future") or has_leaf(ls, "field:future") or any("future" in x for x in ls))
             ctx.check(okw, "C42.%s.select" % name, c.path, "the awaited select polls cancelation_token.cancelled() and the user future", key="C42.%s.select" % name)
-            spec = Has("call:*Future::poll", name="task body completed (Ready)")
+            spec = Has("call:*Future::poll", name="task body completed (Ready)", awaits=True)
         else:
-            spec = Has("call:*Future::poll", "future", name="user future completed (Ready)")
+            spec = Has("call:*Future::poll", "future", name="user future completed (Ready)", awaits=True)
         require_guard(ctx, c, spec, "C42.%s.drop-after-completion" % name, targets=normal_rel, what="guard released only after the awaited task body returned Ready")
     # cancellation path: from each yield's drop edge, the awaited future is dropped before the guard
     okc = True
@@ -123,10 +123,10 @@ def run(ctx):
             ctx.check(has_leaf(ctx.leaves(call_expr(d, can[0])), "a1.token"), "C42.guard.own-token", d.path, "the cancelled token is the guard's own", key="C42.guard.own-token")
     j = ctx.anchor("lumina_utils::executor::JoinHandle::join")
     if j:
-        require_guard(ctx, j, Has("call:*Future::poll", "call:" + TK + "Token::triggered", "self", name="join awaits self.0.triggered()"), "C42.join.awaits")
+        require_guard(ctx, j, Has("call:*Future::poll", "call:" + TK + "Token::triggered", "self", name="join awaits self.0.triggered()", awaits=True), "C42.join.awaits")
     t = ctx.anchor(TK + "Token::triggered")
     if t:
-        require_guard(ctx, t, Has("call:*Future::poll", "call:*CancellationToken::cancelled", "self", name="triggered awaits token.cancelled()"), "C42.token.triggered")
+        require_guard(ctx, t, Has("call:*Future::poll", "call:*CancellationToken::cancelled", "self", name="triggered awaits token.cancelled()", awaits=True), "C42.token.triggered")
     g = ctx.anchor(TK + "Token::trigger_drop_guard", main=False)
     if g:
         ex = [x for x in exit_sites(g)]
